@@ -329,6 +329,8 @@ class Ev:
             fc = c if is_sym(c) else z3.FPVal(c, z3.Float64())
             return z3.fpEQ(fa, fc)
         if k == 'str':
+            if l[1] is None or r[1] is None:
+                raise OracleUnsupported('comparison of unmodelled text')
             return str_equal(l[1], r[1])
         if k == 'list':
             if len(l[1]) != len(r[1]):
@@ -682,7 +684,33 @@ class Ev:
         raise EvalError('filter expects a list, tuple or string', pos, 'type')
 
     def e_Format(self, e, env):
-        raise OracleUnsupported('format')
+        """format strings: the arguments are evaluated (List form: in the current scope; Single form: bound to `item` in
+        a child scope that does not outlive the expression); the rendered text itself is not modelled (opaque string)."""
+        d = e.fields[0]
+        args = self.f(d, 'ast::FormatDef', 'args')
+        an = self.vname(args, 'ast::FormatArgs')
+        tmpl = self.f(d, 'ast::FormatDef', 'template')
+        if type(tmpl) is not str:
+            raise OracleUnsupported('symbolic format template')
+        if an == 'List':
+            n_ph = 0
+            esc = False
+            for ch in tmpl:
+                if ch == '@' and not esc:
+                    n_ph += 1
+                    esc = False
+                elif ch == '\\' and not esc:
+                    esc = True
+                else:
+                    esc = False
+            vals = [self.eval(a, env) for a in args.fields[0].items[:n_ph]]
+            if n_ph > len(args.fields[0].items):
+                raise EvalError('format string has more placeholders than arguments', self.pos_lc(self.f(d, 'ast::FormatDef', 'pos')), 'format')
+            return ('str', None)
+        item = self.eval(args.fields[0], env)
+        if '@' in tmpl:
+            raise OracleUnsupported('embedded format expressions')
+        return ('str', None)
 
     def e_Import(self, e, env):
         raise OracleUnsupported('import')
@@ -769,6 +797,8 @@ def match_vm(ev, oval, vmval):
         if pn == 'Str':
             if k != 'str':
                 return False
+            if oval[1] is None:
+                return True         # text not modelled by the oracle (format rendering)
             return str_equal(oval[1], x)
         return False
     if vn == 'C':
